@@ -91,3 +91,119 @@ def run_domain(ck, circuits, label, min_frac=0.3):
                   f'{len(nets)} generated circuits (non-vacuity; the others are covered by the per-case certificate only)',
                   ran and inside >= min_frac * len(nets), 'correspondence', '' if ran else outs[0][1][-500:])
     return outside
+
+
+# ---- translated source (Gen/SimOpsSrc.v) --------------------------------------------------------------------------------------
+# the comparison functions are emitted into every case file (not a Model file: a Model file importing Gen/SimOpsSrc.v would make
+# every property's build depend on this translation)
+SRC_DEFS = '''Definition simops_src_data := (list (N * list nat * list Z) * list nat * list nat * list Z * list N * N)%type.
+Definition oprow_view (r : oprow) : N * list nat * list Z :=
+  (r_lut r, [r_out r; r_i0 r; r_i1 r; r_i2 r; r_i3 r], [r_a0 r; r_a1 r; r_a2 r]).
+Definition simops_src_view (r : list oprow * list nat * list nat * list Z * list N * N * list Z) : simops_src_data :=
+  let '(ops, starts, stops, locs, caps, len, _) := r in (map oprow_view ops, starts, stops, locs, caps, len).
+Definition simops_src_data_eqb (a b : simops_src_data) : bool :=
+  let '(o1, l1, s1, c1, p1, n1) := a in let '(o2, l2, s2, c2, p2, n2) := b in
+  list_eqb (pair_eqb (pair_eqb N.eqb (list_eqb Nat.eqb)) (list_eqb Z.eqb)) o1 o2 && list_eqb Nat.eqb l1 l2 && list_eqb Nat.eqb s1 s2 &&
+  list_eqb Z.eqb c1 c2 && list_eqb N.eqb p1 p2 && N.eqb n1 n2.
+
+(** a_ctrl : what the caller passed (None = default); the pinned normalisation is [a_ctrl_norm] *)
+Definition simops_src_case (c : netlist) (actrl : option (list arow)) (caps : list N) (cmin : N) (reuse strip : bool)
+    (exp : option simops_src_data) : bool :=
+  opt_eqb simops_src_data_eqb
+    (option_map simops_src_view
+       (simops_src c (a_ctrl_norm actrl (List.length (c_lines c) + 3)) caps cmin reuse strip (S (List.length (c_nodes c))))) exp.
+'''
+SRC_HEADER = HEADER.replace('Model.Corr.', 'Model.Corr Model.SimOpsSrcLib Gen.SimOpsSrc.') + SRC_DEFS
+
+
+def run_impl_src(c, caps, cmin, reuse, strip, a_ctrl=None):
+    """like run_impl, with all nine op columns and level_stops; a_ctrl: None or a list of rows (one per line, or lines+3)"""
+    from kyupy import sim
+    try:
+        with contextlib.redirect_stdout(io.StringIO()):
+            so = sim.SimOps(c, c_caps=caps, c_caps_min=cmin, c_reuse=reuse, strip_forks=strip,
+                            a_ctrl=None if a_ctrl is None else np.asarray(a_ctrl, dtype=np.int32).reshape(-1, 3))
+        if so.ops.ndim != 2:
+            return so, None
+        return so, (so.ops.tolist(), so.level_starts.tolist(), so.level_stops.tolist(), so.c_locs.tolist(), so.c_caps.tolist(), int(so.c_len))
+    except Exception as e:   # noqa
+        return e, None
+
+
+def coq_data_src(d):
+    if d is None:
+        return 'None'
+    ops, ls, lst, locs, caps, clen = d
+    o = cg.coq_list(ops, lambda r: f'({r[0]}%N, [{"; ".join(str(x) + "%nat" for x in r[1:6])}], [{"; ".join(cg.coq_Z(x) for x in r[6:9])}])')
+    nl = lambda l: '[' + '; '.join(f'{x}%nat' for x in l) + ']'
+    return f'Some ({o}, {nl(ls)}, {nl(lst)}, {cg.coq_list(locs, cg.coq_Z)}, {cg.coq_list(caps, cg.coq_N)}, {clen}%N)'
+
+
+def coq_case_src(c, caps, cmin, reuse, strip, a_ctrl, data):
+    act = 'None' if a_ctrl is None else 'Some ' + cg.coq_list(a_ctrl, lambda r: f'({cg.coq_Z(r[0])}, {cg.coq_Z(r[1])}, {cg.coq_Z(r[2])})')
+    return (f'simops_src_case {cg.coq_netlist(c)} ({act}) {cg.coq_list(caps_list(c, caps), cg.coq_N)} {cmin}%N '
+            f'{"true" if reuse else "false"} {"true" if strip else "false"} ({coq_data_src(data)})')
+
+
+def cases_file_src(cases):
+    body = ';\n '.join(coq_case_src(*cs) for cs in cases)
+    return SRC_HEADER + f'Definition results : list bool := [\n {body}].\nEval vm_compute in (failing results).\n'
+
+
+def translate_simops(ck):
+    """tie T for the scheduler: regenerate Gen/SimOpsSrc.v from the current text of SimOps.__init__ (obligation: it translates)"""
+    from vcheck import gen_all
+    res = gen_all.generate(['SimOpsSrc'])
+    ck.obligation('translate sim.SimOps -> Gen/SimOpsSrc.v', res['SimOpsSrc'] is None, 'translation', res['SimOpsSrc'] or '')
+    ck.trust('translator translate/gen_simops.py (fail-closed Python-ast translation of SimOps.__init__ into option-valued Gallina over '
+             'the netlist type; vocabulary Model/SimOpsSrcLib.v: Node / Line objects = their indices, numpy int arrays = lists, a set = '
+             'ascending duplicate-free list, circuit.topological_order() / s_nodes = the existing models; pinned, not translated: the '
+             'c_caps / a_ctrl normalisation, np.asarray(ops).reshape(-1, 9), the tail after self.c_len); its output is additionally '
+             'run against the real class on generated circuits')
+    return res['SimOpsSrc'] is None
+
+
+def run_source_corr(ck, rng, n, label):
+    """translated source (all five sections, composed in source order) = implementation: all nine op columns, level_starts,
+    level_stops, c_locs, c_caps, c_len, on generated circuits x options x a_ctrl argument shapes"""
+    cases = []
+    for i in range(n):
+        c, a = cg.gen_circuit(rng)
+        reuse, strip = rng.random() < 0.6, rng.random() < 0.5
+        caps = 1 if rng.random() < 0.5 else [rng.choice([4, 8, 12]) for _ in range(len(c.lines))]
+        cmin = 1 if caps == 1 else 4
+        act = None
+        if rng.random() < 0.6:
+            rows = len(c.lines) + (3 if rng.random() < 0.5 else 0)
+            act = [[rng.choice([-1, 0, 1, 2]), rng.randrange(5), rng.randrange(3)] for _ in range(rows)]
+        so, d = run_impl_src(c, caps, cmin, reuse, strip, act)
+        ck.count(1, f'source:reuse={reuse},strip={strip},a_ctrl={"default" if act is None else len(act) - len(c.lines)}')
+        cases.append((c, caps, cmin, reuse, strip, act, d))
+    chunks = [cases[i:i + 8] for i in range(0, len(cases), 8)]
+    outs = ck.coq_eval_many('sosrc', [cases_file_src(ch) for ch in chunks], jobs=12)
+    bad = [ci * 8 + j for ci, (ok, out) in enumerate(outs) for j in ((cg.parse_nat_list(out) if ok else None) or [])]
+    ran = all(ok and cg.parse_nat_list(out) is not None for ok, out in outs)
+    from vcheck import core
+    ck.obligation(f'{label}: translated source Gen/SimOpsSrc.v (ops incl. a_ctrl columns, level_starts, level_stops, c_locs, c_caps, c_len) = '
+                  f'implementation on {len(cases)} circuits x options x a_ctrl shapes', ran and not bad, 'correspondence',
+                  f'failing cases {bad[:8]}' if ran else core.coq_first_error(outs[0][1]))
+    return bad
+
+
+def run_op_ok(ck, circuits, label):
+    """side conditions of C07_simops_levels_source_is_model / C08_simops_source_prefix_partial (array accesses in range) hold on the
+    generated circuits: evaluated with the proved-sound checker op_ok_b on the MODEL's op list and stem table"""
+    hdr = HEADER.replace('Model.Corr.', 'Model.Corr Proofs.SimOpsSrcLevels.')
+    cases = []
+    for c, _, strip in circuits:
+        n = cg.coq_netlist(c)
+        s = 'true' if strip else 'false'
+        cases.append(f'(let c := {n} in match build_stems c {s} (src_len c) with Some st => Nat.eqb (List.length st) (src_len c) && '
+                     f'forallb (op_ok_b (src_len c) st) (build_ops c {s}) | None => true end)')
+    chunks = [cases[i:i + 40] for i in range(0, len(cases), 40)]
+    outs = ck.coq_eval_many('opok', [hdr + 'Definition results : list bool := [\n ' + ';\n '.join(ch) + '].\nEval vm_compute in (failing results).\n'
+                                     for ch in chunks], jobs=12)
+    bad = [ci * 40 + j for ci, (ok, out) in enumerate(outs) for j in ((cg.parse_nat_list(out) if ok else None) or [])]
+    ran = all(ok and cg.parse_nat_list(out) is not None for ok, out in outs)
+    ck.obligation(f'{label}: the range side conditions of the source-tie theorems (stem table of full length, op_ok for every op) hold on '
+                  f'{len(cases)} generated circuits (proved-sound checker op_ok_b)', ran and not bad, 'correspondence', f'failing circuits {bad[:8]}')
